@@ -15,6 +15,7 @@ pub fn model(tier: Tier, world: &str) -> Hist {
     alpha.receivership = true;
     alpha.tokenless = true;
     alpha.vault_swaps = true;
+    alpha.flash_wrap = true;
     if tier == Tier::Thorough {
         alpha.rich_amounts = true;
         alpha.max_clock_devs = 2;
